@@ -123,3 +123,32 @@ int sim_omp_litmus_sb(int nthreads)
 #endif
     return r1 == 0 && r2 == 0;
 }
+
+/* Thread-local storage test: every thread of a team writes its own threadprivate variable; in a second parallel region
+   of the same size each thread must find its own value again (libgomp keeps its worker threads, and so does the
+   simulator's TLS model), and the main thread's copy must not have been overwritten by the workers.  Returns the number
+   of wrong observations. */
+static int tp_value;
+#ifdef _OPENMP
+#pragma omp threadprivate(tp_value)
+#endif
+int sim_omp_tls_test(int nthreads)
+{
+    int bad = 0;
+#ifdef _OPENMP
+    tp_value = 7;
+#pragma omp parallel num_threads(nthreads)
+    {
+        if (omp_get_thread_num() != 0) tp_value = 100 + omp_get_thread_num();
+    }
+    if (tp_value != 7) bad++;
+#pragma omp parallel num_threads(nthreads) reduction(+:bad)
+    {
+        int t = omp_get_thread_num();
+        if (t == 0 ? tp_value != 7 : tp_value != 100 + t) bad++;
+    }
+#else
+    (void)nthreads;
+#endif
+    return bad;
+}
